@@ -19,7 +19,7 @@ def run(ctx):
         outs.append(o)
         jobs.append(dict(module="MC_C18", name="MC_C18_%d" % i, view="View",
                          constants={"Seed": ctx.seed, "BSet": core.tla_set(sh["BSet"]), "FullLen": sh["FullLen"],
-                                    "StrBS": core.tla_set(sh["StrBS"]), "OutFile": core.tla_str(o)},
+                                    "StrBS": core.tla_set(sh["StrBS"]), "HdrBS": core.tla_set(sh.get("HdrBS", sh["BSet"])), "OutFile": core.tla_str(o)},
                          invariants=("InvAll", "WholeAll", "AcceptOnlyAll", "TypeOK"), workers=4, timeout=3000))
     ctx.tlc_many(jobs, parallel=4)
     core.cat_files(outs, out)
